@@ -31,8 +31,8 @@ CRATE = os.path.join(WORK, "crate")
 LOGS = os.path.join(WORK, "logs")
 FEATURES = "serde,rch,robs,robj,default-codec-postbag"
 NSHARDS = int(os.environ.get("VERIF_SHARDS", "6"))  # x DEFAULT_MEM_GB must stay below the 62 GB of the sandbox in practice (most harnesses need 2-6 GB)
-DEFAULT_CAP = {"quick": 420, "thorough": 1800}
-DEFAULT_MEM_GB = 20
+DEFAULT_CAP = {"quick": int(os.environ.get("VERIF_CAP", "420")), "thorough": int(os.environ.get("VERIF_CAP", "1800"))}
+DEFAULT_MEM_GB = int(os.environ.get("VERIF_MEM_GB", "20"))
 
 TRUSTED_BASE = [
     "Kani 0.68.0 / CBMC 6.11.0 / CaDiCaL (compiler front end rustc->MIR->GOTO, bit-precise semantics, SAT back end)",
@@ -365,7 +365,9 @@ def check(prop, tier):
     seed = int(os.environ.get("VERIF_SEED", "0") or 0)
     prepare()
     allh = hreg.load(os.path.join(ROOT, "kani", "harness"))
-    hs = [h for h in allh if (prop in h.props or (prop == "ALL" and h.props)) and (tier == "thorough" or h.tier == "quick")]
+    run_off = bool(os.environ.get("VERIF_ONLY"))  # development runs may name unregistered harnesses
+    hs = [h for h in allh if (prop in h.props or (prop == "ALL" and h.props))
+          and (h.tier == "quick" or (tier == "thorough" and h.tier == "thorough") or (run_off and h.tier == "off"))]
     only = os.environ.get("VERIF_ONLY")
     if only:
         hs = [h for h in hs if re.search(only, h.name)]
